@@ -15,8 +15,8 @@ PROPS = {
         # lowering of binary / compound-assignment statements and emit_binop_expr (quote! interpolation, &mut self
         # recursive descent): outside the verifier's reach -> bounded stand-in through the real front end + code generator
         'bounded_standins': [
-            {'oracle': 'incan::emit_division', 'cases': 60, 'function': 'parser + lowering of `L op R` / `T op= R` (compound assignment on locals, fields and list elements; const initializers) and emit_binop_expr',
-             'bound': 'exhaustive over / // % x int/float left x int/float right x 5 forms (plain, compound on a local / field / list element, const initializer over literals); fixed program shapes; checks helper, operand order and promotions in the generated call (a folded const must have Python\'s value)'},
+            {'oracle': 'incan::emit_division', 'cases': 72, 'function': 'parser + lowering of `L op R` / `T op= R` (compound assignment on locals, fields and list elements; const initializers) and emit_binop_expr',
+             'bound': 'exhaustive over / // % x int/float left x int/float right x 6 forms (plain, plain with a negated left operand, compound on a local / field / list element, const initializer over literals); fixed program shapes; checks helper, operand order and promotions in the generated call (a folded const must have Python\'s value)'},
         ],
         # one concrete execution per documented message on the REAL crates (the Display impl that renders the
         # error value is outside both verifiers; the contracts pin the value, these pin its text)
@@ -51,8 +51,8 @@ PROPS = {
         'bounded_standins': [
             {'oracle': 'incan::emit_range', 'cases': 155, 'function': 'emit_range_call (call site of the runtime range) and the lowering of for loops over range',
              'bound': 'exhaustive over range(e), range(s, e), range(s, e, k) x {variable, 0, negative literal, 2, expression} per written argument; one fixed program shape; checks argument positions and the defaults 0 / 1 in the generated call'},
-            {'oracle': 'incan::emit_slice', 'cases': 269, 'function': 'parser index_or_slice/parse_slice, lowering of Index/Slice, emit_index_expr, emit_slice_expr',
-             'bound': 'exhaustive over str/list target x {omitted, variable, 0, -1} start x same end x {omitted, variable, -1, 2} step x compact/spaced spelling, plus 4 index reads, 4 element assignments (list_get_mut) and a dict read (dict_get); one fixed program shape; checks the helper and the position of every bound in the generated call'},
+            {'oracle': 'incan::emit_slice', 'cases': 271, 'function': 'parser index_or_slice/parse_slice, lowering of Index/Slice, emit_index_expr, emit_slice_expr',
+             'bound': 'exhaustive over str/list target x {omitted, variable, 0, -1} start x same end x {omitted, variable, -1, 2} step x compact/spaced spelling, plus 4 index reads, 4 element assignments (list_get_mut) a dict read (dict_get), a nested index `grid[r][c]` and a dict compound assignment; one fixed program shape; checks the helper and the position of every bound in the generated call'},
         ],
         'pins': [
             ('stdlib::str_index', {'s': 'héllo', 'i': 5}), ('stdlib::str_index', {'s': 'héllo', 'i': -6}), ('stdlib::str_index', {'s': 'héllo', 'i': -4}),
@@ -90,8 +90,8 @@ PROPS = {
         # functions that cannot be brought within the verifier's reach (methods on the checker's state): a bounded
         # stand-in through the REAL front end (lex + parse + check), exhaustive over the stated space; labelled bounded
         'bounded_standins': [
-            {'oracle': 'incan::static_type', 'cases': 2352, 'function': 'TypeChecker: annotated let / return / call argument of a binary expression',
-             'bound': 'exhaustive over 7 operators x int/float operand kinds x int/float annotation x 7 right-operand forms (variable, const, literal, 0, negative literal, parenthesised, double minus) x 3 binding positions x bare / parenthesised right-hand side; fixed program shapes'},
+            {'oracle': 'incan::static_type', 'cases': 9408, 'function': 'TypeChecker: annotated let / return / call argument of a binary expression',
+             'bound': 'exhaustive over 7 operators x int/float operand kinds x int/float annotation x 7 right-operand forms (variable, const, literal, 0, negative literal, parenthesised, double minus) x 4 binding positions (let, return, argument, const initializer) x bare / parenthesised right-hand side x 3 annotation spellings (int / Int / INT); fixed program shapes; accepted iff the annotation is the kind given by the table'},
             {'oracle': 'incan::static_type_nested', 'cases': 1500, 'function': 'TypeChecker on nested arithmetic (check_binary applied recursively through check_expr, Paren, Unary)',
              'bound': 'a seeded sample of 1500 random expression trees of depth <= 3 over int/float variables, fields and literals with all seven operators, optionally under a comparison; annotated let; NOT exhaustive'},
             {'oracle': 'incan::emit_promotion', 'cases': 704, 'function': 'lowering (operand typing, compound-assignment desugaring) + emit_binop_expr for + - * and **',
@@ -114,8 +114,12 @@ PROPS = {
         ],
         # compile_error_to_diagnostic builds lsp_types::Diagnostic / Url values (external crates): bounded stand-in on the real function
         'bounded_standins': [
+            {'oracle': 'incan::fmt_error_location', 'cases': 15, 'function': 'format_source_with_config error path (which text it lexes vs which text it renders the error against)',
+             'bound': 'exhaustive over 5 document prefixes (none, BOM, comment lines with multi-byte / astral characters, CRLF) x 3 positions of a stray `!`; the reported <input>:line:col must agree with counting in the given text'},
             {'oracle': 'syntax::format_error_location', 'cases': 400, 'function': 'format_error (the call site of get_line_info: which offset it passes, how it prints line:col)',
              'bound': 'exhaustive over 13 fixed documents x every span start in 0..=len+1 plus two huge offsets; the `--> file:line:col` header must agree with counting newlines and characters (known byte-column class excluded)'},
+            {'oracle': 'lsp::published_ranges', 'cases': 6, 'function': 'src/lsp/backend.rs analyze_document (what the server publishes)',
+             'bound': 'the real server behind tower_lsp::Server over an in-memory pipe (initialize, initialized, didOpen) on 6 fixed ill-formed documents whose errors follow multi-byte / astral characters or CRLF; every published range (and related-information range) must lie inside the document'},
             {'oracle': 'lsp::server_ranges', 'cases': 700, 'function': 'src/lsp/backend.rs hover / goto_definition (call sites of span_to_range and position_to_offset)',
              'bound': 'the real IncanLanguageServer driven with did_open + hover + goto_definition on 6 fixed documents (plain, decorated declarations, multi-byte and astral characters, CRLF, enum, syntax error) x every character boundary as the cursor; every returned range must lie inside the document'},
             {'oracle': 'lsp::diagnostic_range', 'cases': 12000, 'function': 'compile_error_to_diagnostic',
